@@ -653,20 +653,24 @@ pub fn gen_case(r: &mut Rng, g: &GenCfg) -> Vec<String> {
     for t in TX.iter() { if r.chance(if dense { 3 } else { 1 }, 4) { ops.push(format!("mktx {}", csv(t))); } }
     if r.chance(if dense { 4 } else { 1 }, 5) { ops.push(format!("mkhn {HN_FIELD} {HN_DIM}")); }
     let mut next_id = 1u64;
+    // ids that may be live (an add was generated for them and no rm since): updates and removals aim
+    // at them most of the time; a rejected add still consumes its id, an invalid one does not
+    let mut maybe: Vec<u64> = vec![];
     for _ in 0..g.n_ops {
-        let id = 1 + r.below(next_id.max(1));
+        let id = if !maybe.is_empty() && r.chance(4, 5) { *r.pick(&maybe) } else { 1 + r.below(next_id.max(1)) };
         match r.below(100) {
             0..=41 => {
                 let mut fvs: Vec<(usize, Val)> = FIELDS.iter().map(|f| (f.num, gen_val(r, f, g))).collect();
+                let mut allocates = true;
                 if r.below(100) < g.malformed {
                     match r.below(3) {
-                        0 => { let k = r.usize(fvs.len()); fvs.remove(k); }
-                        1 => { let k = r.usize(fvs.len()); fvs[k].1 = wrong_val(r, &FIELDS[k]); }
-                        _ => fvs.push((99, Val::Int(1))),
+                        0 => { let k = r.usize(fvs.len()); allocates = matches!(FIELDS[k].ty, Ty::OptKeyText | Ty::OptI64 | Ty::OptBody); fvs.remove(k); }
+                        1 => { let k = r.usize(fvs.len()); fvs[k].1 = wrong_val(r, &FIELDS[k]); allocates = false; }
+                        _ => { fvs.push((99, Val::Int(1))); allocates = false; }
                     }
                 }
                 ops.push(format!("add {}", join(fvs.iter().map(|(f, v)| format!("{f}={}", v.show())), " ")));
-                next_id += 1;
+                if allocates { maybe.push(next_id); next_id += 1; }
             }
             42..=74 => {
                 let n = 1 + r.usize(3);
@@ -682,7 +686,8 @@ pub fn gen_case(r: &mut Rng, g: &GenCfg) -> Vec<String> {
                 }
                 ops.push(format!("upd {id} {}", join(fvs.iter().map(|(f, v)| format!("{f}={}", v.show())), " ")).trim_end().to_string());
             }
-            75..=87 => ops.push(format!("rm {id}")),
+            75..=84 => { ops.push(format!("rm {id}")); maybe.retain(|x| *x != id); }
+            85..=87 => ops.push(format!("rm {}", 1 + r.below(next_id + 1))),
             88..=90 => ops.push("reopen".into()),
             91 | 92 => ops.push("flush".into()),
             _ => { ops.push("reopen".into()); for _ in 0..1 + r.usize(2) { ops.push(gen_ix_op(r)); } }
